@@ -175,7 +175,9 @@ func (b *Builder) ExportFunc(name string) *UnexportedFuncMocker {
 // Var 变量 mock, target 类型必须传递指针类型
 func (b *Builder) Var(v interface{}) VarMock {
 	cacheKey := fmt.Sprintf("var_%d", reflect.ValueOf(v).Pointer())
-	if mocker, ok := b.mockers[cacheKey]; ok && !mocker.Canceled() {
+	// 变量 mocker 取消后仍可继续使用(再次 Set/Apply 会重新保存原值), 因此取消后也沿用缓存中的同一个 mocker:
+	// 否则调用方保留的旧 mocker 会被新建的 mocker 顶替出缓存, 之后通过旧 mocker 设置的值 Reset 无法恢复
+	if mocker, ok := b.mockers[cacheKey]; ok {
 		b.reset2CurPkg()
 		return mocker.(VarMock)
 	}
@@ -196,7 +198,8 @@ func (b *Builder) Var(v interface{}) VarMock {
 // Set(value)时, value类型必须和变量原值的类型一致，否则会出现不可预测的异常行为
 func (b *Builder) UnExportedVar(path string) UnExportedVarMock {
 	cacheKey := fmt.Sprintf("ue_var_%s", path)
-	if mocker, ok := b.mockers[cacheKey]; ok && !mocker.Canceled() {
+	// 同 Var: 取消后的变量 mocker 仍然沿用
+	if mocker, ok := b.mockers[cacheKey]; ok {
 		b.reset2CurPkg()
 		return mocker.(UnExportedVarMock)
 	}
